@@ -96,7 +96,7 @@ def generate(seed, idx, tier):
         'knobs': knobs, 'shape': shape, 'prefix': ops, 'append': app,
         'profile': rng.choice(('posix', 'objstore')),
         'both_profiles': not quick,
-        'kinds': ['eio', 'enospc_partial', 'eio_close', 'crash'],
+        'kinds': ['eio', 'enospc_partial', 'eio_close', 'crash', 'eio_read'],
         'double_frac': 0.34,
         'n_resolutions': 1 if quick else 3,
         'after_meta': 'sample',
@@ -183,6 +183,8 @@ def bucket(k, m, trace):
 def applicable(op, kinds):
     out = []
     for kind in kinds:
+        if kind == 'eio_read':
+            continue                # read-side calls are planned apart
         if kind == 'eio_close':
             if op == 'close':
                 out.append(kind)
@@ -256,7 +258,7 @@ def execute(case):
         # ---- fault-free reference run
         ref = D.clone_fs(snap, case['profile'])
         ref.protected = set(protected)
-        ref.begin_op()
+        ref.begin_op(track_reads=True)
         try:
             run_append(ref, case, parts, df.copy())
         except Exception as e:
@@ -266,6 +268,7 @@ def execute(case):
             res['digest'] = 'discard'
             return res
         trace = list(ref.log)
+        rtrace = list(ref.rlog)
         n_calls = ref.op_calls
         m = first_meta_call(trace)
         if m is None:
@@ -327,6 +330,9 @@ def execute(case):
             'trace_head': [[e[3]['k'], e[1], e[2], e[4]] for e in trace[:14]],
         }
         by_k = {e[3]['k']: e for e in trace}
+        by_rk = {e[0]: e for e in rtrace}
+        bump(cnt, 'read_calls_before_meta',
+             len([e for e in rtrace if e[3] < m]))
 
         # ---- the plan: which (k, kind, double, profile, resolution) to run
         plan = []
@@ -356,6 +362,18 @@ def execute(case):
                                 plan.append({'k': k, 'kind': kind,
                                              'profile': prof, 'double': True,
                                              'dur': frng.randrange(2 ** 31)})
+            # read-side calls (stat, listing, open for reading, read) issued
+            # before the summary rewrite: each one failed with EIO
+            if 'eio_read' in case['kinds']:
+                for e in rtrace:
+                    if e[3] >= m:
+                        continue
+                    for prof in profiles:
+                        plan.append({'rk': e[0], 'kind': 'eio_read',
+                                     'profile': prof,
+                                     'double': frng.random()
+                                     < case['double_frac'] / 2,
+                                     'dur': frng.randrange(2 ** 31)})
             # faults after the metadata rewrite began: executed, only counted
             if case.get('after_meta') == 'sample':
                 for k in sorted(frng.sample(range(m, n_calls + 1),
@@ -366,12 +384,18 @@ def execute(case):
 
         # ---- faulted runs
         for fl in plan:
-            k, kind = fl['k'], fl['kind']
+            kind = fl['kind']
+            isread = 'rk' in fl
+            k = ('r', fl['rk']) if isread else fl['k']
             fs = D.clone_fs(snap, fl['profile'])
             fs.protected = set(protected)
             drng = prng.stream(fl['dur'], 'dur')
             fs.sync_point()
-            fs.begin_op({k: kind}, double=fl['double'], fault_rng=drng)
+            if isread:
+                fs.begin_op(rplan={fl['rk']: kind}, double=fl['double'],
+                            fault_rng=drng)
+            else:
+                fs.begin_op({k: kind}, double=fl['double'], fault_rng=drng)
             outcome = 'returned'
             err = None
             try:
@@ -399,15 +423,28 @@ def execute(case):
                     D.read_all(fs, D.DS)
                 except Exception:
                     bump(cnt, 'after_metadata_fault_left_unreadable_dataset')
-                h.update(('%d:%s:after;' % (k, kind)).encode())
+                h.update(('%s:%s:after;' % (k, kind)).encode())
                 continue
             if not fired:
                 bump(cnt, 'fault_did_not_fire')
                 continue
             for f in fired:
                 bump(faults, f[1])
-            ev = by_k[k]
-            role = role_of(ev, snap[1], snap[0])
+            if isread:
+                re_ = by_rk[fl['rk']]
+                # same layout as a mutating event: [seq, op, path, detail, site]
+                ev = [0, 'r-' + re_[1], re_[2], {'k': re_[3], 'at': 0}, re_[4]]
+                base = re_[2].rsplit('/', 1)[-1]
+                role = 'read-summary' if base in ('_metadata',
+                                                  '_common_metadata') \
+                    else 'read-part' if base.endswith(('.parquet', '.parq')) \
+                    else 'read-dir'
+                pos = 'read'
+                bump(probes, 'read_fault:%s:%s' % (re_[1], role))
+            else:
+                ev = by_k[k]
+                role = role_of(ev, snap[1], snap[0])
+                pos = bucket(k, m, trace)
             durtag = '-'
             if dur is not None:
                 tags = sorted({d[1].split(':')[0] for d in dur})
@@ -416,7 +453,7 @@ def execute(case):
                     bump(probes, 'crash_left_%s_file' % t)
             res['keys'].append('|'.join((shape_key, kind + (
                 '+2nd' if len(fired) > 1 else ''), ev[1].split(':')[0], role,
-                bucket(k, m, trace), fl['profile'], durtag)))
+                pos, fl['profile'], durtag)))
             if ev[1] == 'write' and ev[3]['at'] > 0:
                 bump(probes, 'fault_after_first_byte_of_part')
             if ev[1] == 'close':
@@ -428,7 +465,7 @@ def execute(case):
             if len(fired) > 1:
                 bump(probes, 'second_fault_inside_error_handling')
             bump(cnt, 'outcome_' + outcome)
-            fdesc = 'fault %s at call %d (%s %s @%s)%s' % (
+            fdesc = 'fault %s at call %s (%s %s @%s)%s' % (
                 kind, k, ev[1], ev[2], ev[4],
                 ' + second eio' if len(fired) > 1 else '')
             # invariant 3: never touch an existing data file
@@ -445,7 +482,7 @@ def execute(case):
                     'failure' if outcome != 'returned' else 'return'),
                     '%s: append %s, then fresh open/read fails: %s: %s'
                     % (fdesc, outcome, type(e).__name__, e), fl)
-                h.update(('%d:%s:%s:unreadable;' % (k, kind,
+                h.update(('%s:%s:%s:unreadable;' % (k, kind,
                                                     outcome)).encode())
                 continue
             if outcome == 'returned':
@@ -464,7 +501,7 @@ def execute(case):
                               'before: %s' % (fdesc, outcome,
                                               type(err).__name__,
                                               '; '.join(d[:3])), fl)
-            h.update(('%d:%s:%s:%s:%s;' % (k, kind, outcome, fs.digest(),
+            h.update(('%s:%s:%s:%s:%s;' % (k, kind, outcome, fs.digest(),
                                            fs.state_digest())).encode())
     res['digest'] = h.hexdigest()
     if 'fault' in case:
